@@ -1605,6 +1605,73 @@ def a_drop(ev, st, info, args):
     return [(st, T.UNIT)]
 
 
+@ax('std::array::<impl [T; N]>::map', note='[T; N]::map(f): f applied to the elements in order')
+def a_array_map(ev, st, info, args):
+    a, f = args[0], args[1]
+    if a[0] == 'ref':
+        a = ev.deref(a, st)
+    if a[0] != 'arr' or len(a[1]) > 64:
+        return [(st, ('opaque', 'array map over an array that is not an explicit list of elements'))]
+    outs = []
+    work = [(st, 0, ())]
+    while work:
+        s1, i, done = work.pop()
+        if i == len(a[1]):
+            outs.append((s1, ('arr', done)))
+            continue
+        for s2, r in ev.apply_closure(f, [a[1][i]], s1, info['fr'], info['site']):
+            work.append((s2, i + 1, done + (r,)))
+    return outs
+
+
+@ax('std::iter::Iterator::try_fold', note='try_fold(init, f): threads an accumulator through f over the items in order, stops at the first Err; over an '
+    'iterator of constant length it is applied item by item')
+def a_try_fold(ev, st, info, args):
+    it, acc0, f = args[0], args[1], args[2]
+    if it[0] == 'ref':
+        it = ev.deref(it, st)
+    if f[0] != 'closure':
+        return [(st, ('opaque', 'try_fold with a non-closure function'))]
+    if not (is_iter(it) and iter_bound(it) is not None):
+        return [(st, ('opaque', 'try_fold over an iterator without a constant bound'))]
+    outs = []
+    work = [(st, it, acc0)]
+    while work:
+        s1, cur, acc = work.pop()
+        for s2, nxt, item in iter_step(ev, s1, cur):
+            if item is None:
+                outs.append((s2, ok(acc)))
+                continue
+            for s3, r in ev.apply_closure(f, [acc, item], s2, info['fr'], info['site']):
+                for s4, var, get in fork_enum(s3, r, 'Result', ['Ok', 'Err']):
+                    if var == 'Ok':
+                        work.append((s4, nxt, get('0')))
+                    else:
+                        outs.append((s4, err(get('0'))))
+    return outs
+
+
+@ax('std::iter::Iterator::fold', note='fold(init, f): threads an accumulator through f over the items in order; over an iterator of constant length it is '
+    'applied item by item')
+def a_fold(ev, st, info, args):
+    it, acc0, f = args[0], args[1], args[2]
+    if it[0] == 'ref':
+        it = ev.deref(it, st)
+    if f[0] != 'closure' or not (is_iter(it) and iter_bound(it) is not None):
+        return [(st, ('opaque', 'fold over an iterator without a constant bound'))]
+    outs = []
+    work = [(st, it, acc0)]
+    while work:
+        s1, cur, acc = work.pop()
+        for s2, nxt, item in iter_step(ev, s1, cur):
+            if item is None:
+                outs.append((s2, acc))
+                continue
+            for s3, r in ev.apply_closure(f, [acc, item], s2, info['fr'], info['site']):
+                work.append((s3, nxt, r))
+    return outs
+
+
 @ax('std::iter::Iterator::try_for_each', note='try_for_each(f): applies f to each item in order, stops at the first Err; analysed as a loop (widening) over the '
     'locations f captures by mutable reference')
 def a_try_for_each(ev, st, info, args):
